@@ -136,6 +136,22 @@ def tensor(env, topo, grid, radius, scale=1.0):
                     refv = np.sort(np.linalg.eigvalsh(np.asarray(ref, dtype=float)))
                     pr_ok = pr_ok & bool(np.allclose(vals, refv, atol=1e-9))
     obs.append(Ob("principal-stresses-are-the-eigen-systems-of-the-tensors-at-their-grid-centres", pr_ok, finding=coll))
+    # the same Frame analysed again after its pressures and tensions were replaced: the result is that of the new values
+    for cid, cell in fr.cells.items():
+        cell.pressure = P["b"][b.cell_name[cid]]
+    for be in fr.big_edges.values():
+        be.tension = T["b"][tuple(be.get_vertices_ids())]
+    sig3, _, _ = st.stress_tensor(fr, grid, radius)
+    re_ok = env.true() & (len(sig3) == len(runs["b"][2]))
+    for row in range(grid):
+        for col in range(grid):
+            key = f"{row}{col}"
+            if sum(1 for r_ in range(grid) for c_ in range(grid) if f"{r_}{c_}" == key) > 1 or key not in sig3 or key not in runs["b"][2]:
+                continue
+            for i in range(2):
+                for j in range(2):
+                    re_ok = re_ok & env.eq(sig3[key][i][j], runs["b"][2][key][i][j], tol=1e-9)
+    obs.append(Ob("re-analysis-of-the-same-frame-reflects-the-current-pressures-and-tensions", re_ok))
     return obs
 
 
